@@ -146,6 +146,14 @@ var opSpecs = []opSpec{
 		}
 		return []cty.Value{a, genVal(ctx.R, t, 2, o)}
 	}, func(a []cty.Value) cty.Value { return a[0].Equals(a[1]) }, nil},
+	{"notequal", 2, func(ctx *Ctx, o ValOpts) []cty.Value {
+		t := genTy(ctx.R, 2, TyOpts{Dyn: true})
+		a := genVal(ctx.R, t, 2, o)
+		if ctx.R.Intn(2) == 0 {
+			return []cty.Value{a, a}
+		}
+		return []cty.Value{a, genVal(ctx.R, t, 2, o)}
+	}, func(a []cty.Value) cty.Value { return a[0].NotEqual(a[1]) }, nil},
 	{"add", 2, func(ctx *Ctx, o ValOpts) []cty.Value { return []cty.Value{numOperand(ctx, o), numOperand(ctx, o)} },
 		func(a []cty.Value) cty.Value { return a[0].Add(a[1]) }, nil},
 	{"sub", 2, func(ctx *Ctx, o ValOpts) []cty.Value { return []cty.Value{numOperand(ctx, o), numOperand(ctx, o)} },
@@ -386,15 +394,26 @@ func c01Sig(p c01Pending, why string) string {
 		switch p.op {
 		case "haselement":
 			n, _ := p.ws[1].UnmarkDeep()
-			if why == "result-not-covered" && n.IsKnown() && !n.IsWhollyKnown() && isFalse {
-				return "haselement-false-for-partly-unknown-element"
+			st, _ := p.ws[0].Unmark()
+			if why == "result-not-covered" && isFalse {
+				if n.IsKnown() && !n.IsWhollyKnown() {
+					return "haselement-false-for-partly-unknown-element"
+				}
+				if st.Type().IsSetType() && (st.Type().ElementType().HasDynamicTypes() || n.Type().HasDynamicTypes()) &&
+					n.Type() != cty.DynamicPseudoType && st.Type().ElementType() != cty.DynamicPseudoType {
+					return "haselement-false-for-type-with-placeholder-inside"
+				}
 			}
-		case "equals", "le", "ge":
+		case "equals", "notequal", "le", "ge":
 			if why == "result-not-covered" {
 				a, _ := p.ws[0].UnmarkDeep()
 				b, _ := p.ws[1].UnmarkDeep()
-				if (hasNestedDyn(a) && !b.IsKnown()) || (hasNestedDyn(b) && !a.IsKnown()) {
-					return "equals-false-for-nested-dynamic-vs-unknown"
+				isFalse := isFalse
+				if p.op == "notequal" {
+					isFalse = rwu != cty.NilVal && rwu.IsKnown() && rwu.RawEquals(cty.True)
+				}
+				if isFalse && (hasNestedDyn(a) || hasNestedDyn(b)) {
+					return "equals-false-with-dynamic-nested-in-known-value"
 				}
 				if isFalse && (setWithPartlyUnknownMember(a) || setWithPartlyUnknownMember(b)) {
 					return "equals-false-for-set-with-partly-unknown-member"
@@ -404,7 +423,7 @@ func c01Sig(p c01Pending, why string) string {
 				}
 			}
 		case "add", "sub", "mul":
-			if why == "result-not-covered" && rwu != cty.NilVal && !rwu.IsKnown() && len(numPrecs(append(append([]cty.Value{}, p.os...), p.ws...)...)) > 1 {
+			if why == "result-not-covered" && rwu != cty.NilVal && len(numPrecs(append(append([]cty.Value{}, p.os...), p.ws...)...)) > 1 {
 				return "range-bound-rounded-at-lower-precision"
 			}
 		case "mod":
